@@ -466,6 +466,12 @@ where
             return self.assign_fixed_biguint(layouter, BigUint::one());
         }
 
+        if n == 1 {
+            // The square-and-multiply below would return `x` itself, unreduced.
+            let (_, r) = self.div_rem(layouter, x, m)?;
+            return Ok(r);
+        }
+
         let mut n = n;
         let mut tmp = x.clone();
         let mut res = None;
